@@ -25,6 +25,9 @@ type TraceItem struct {
 	HasVal bool
 	Body   []TraceItem
 	Pos    token.Pos
+	Bytes  []ByteItem // "bytes": what is appended to the tracked buffer
+	Off    int        // "store": constant offset into the tracked buffer
+	Expr   ast.Expr   // "field": the value assigned to a tracked struct field
 }
 
 func (t TraceItem) String() string {
@@ -105,6 +108,8 @@ type tracer struct {
 	prims    map[string]string
 	inline   map[string]bool        // callees to inline
 	noAuto   func(name string) bool // framer methods that are deliberately not followed
+	trackBuf string                 // byte buffer whose appends / stores are recorded ("f.buf"), "" = off
+	trackVar string                 // struct variable whose field assignments are recorded ("head"), "" = off
 	unsup    []string
 	maxPaths int
 	npaths   int
@@ -459,6 +464,7 @@ func (tr *tracer) execStmt(fi *FuncInfo, s ast.Stmt, st *pathState) []*pathState
 		}
 		return []*pathState{st}
 	case *ast.AssignStmt:
+		tr.recordBufOps(fi, x, st)
 		states := []*pathState{st}
 		for _, r := range x.Rhs {
 			states = tr.execExpr(fi, r, states)
@@ -874,6 +880,9 @@ func (tr *tracer) execExpr(fi *FuncInfo, e ast.Expr, states []*pathState) []*pat
 	collect(e)
 	for _, c := range calls {
 		name := calleeName(info, c)
+		for _, st := range states {
+			tr.recordBufCall(fi, c, st)
+		}
 		if name == "builtin.panic" {
 			for _, st := range states {
 				if st.done == "" {
@@ -1030,4 +1039,125 @@ func dedupStates(in []*pathState) []*pathState {
 		}
 	}
 	return out
+}
+
+// evalInt evaluates a small integer expression from constants and constant-propagated locals.
+func (tr *tracer) evalInt(info *types.Info, e ast.Expr, st *pathState) (int64, bool) {
+	e = ast.Unparen(e)
+	if k, ok := constInt(info, e); ok {
+		return k, true
+	}
+	switch x := e.(type) {
+	case *ast.Ident:
+		if st.known[x.Name] {
+			return st.store[x.Name], true
+		}
+	case *ast.BinaryExpr:
+		a, ok1 := tr.evalInt(info, x.X, st)
+		b, ok2 := tr.evalInt(info, x.Y, st)
+		if ok1 && ok2 {
+			switch x.Op {
+			case token.ADD:
+				return a + b, true
+			case token.SUB:
+				return a - b, true
+			case token.MUL:
+				return a * b, true
+			}
+		}
+	case *ast.CallExpr:
+		if len(x.Args) == 1 {
+			if tv, ok := info.Types[x.Fun]; ok && tv.IsType() {
+				return tr.evalInt(info, x.Args[0], st)
+			}
+		}
+	}
+	return 0, false
+}
+
+// recordBufOps records appends to / stores into the tracked buffer and assignments to fields of the tracked
+// struct variable (used by the header layout rule, which compares writer and reader byte by byte).
+func (tr *tracer) recordBufOps(fi *FuncInfo, as *ast.AssignStmt, st *pathState) {
+	if st.done != "" || len(as.Lhs) != len(as.Rhs) {
+		return
+	}
+	info := fi.Pkg.TypesInfo
+	for i, l := range as.Lhs {
+		ls := strings.ReplaceAll(exprStr(l), " ", "")
+		rhs := ast.Unparen(as.Rhs[i])
+		if tr.trackBuf != "" {
+			if ls == tr.trackBuf {
+				if sl, ok := rhs.(*ast.SliceExpr); ok && strings.ReplaceAll(exprStr(sl.X), " ", "") == tr.trackBuf && sl.High != nil {
+					if k, ok := constInt(info, sl.High); ok && k == 0 {
+						st.trace = append(st.trace, TraceItem{Prim: "reset", Pos: as.Pos()})
+					}
+				}
+				if c, ok := rhs.(*ast.CallExpr); ok && exprStr(c.Fun) == "append" && len(c.Args) >= 1 && !c.Ellipsis.IsValid() {
+					base := strings.ReplaceAll(exprStr(c.Args[0]), " ", "")
+					if base == tr.trackBuf+"[:0]" {
+						st.trace = append(st.trace, TraceItem{Prim: "reset", Pos: as.Pos()})
+						base = tr.trackBuf
+					}
+					if base == tr.trackBuf {
+						var items []ByteItem
+						for _, a := range c.Args[1:] {
+							items = append(items, parseByteItem(info, a))
+						}
+						st.trace = append(st.trace, TraceItem{Prim: "bytes", Bytes: items, Pos: as.Pos()})
+					}
+				}
+			}
+			if ix, ok := ast.Unparen(l).(*ast.IndexExpr); ok && strings.ReplaceAll(exprStr(ix.X), " ", "") == tr.trackBuf {
+				if off, ok := tr.evalInt(info, ix.Index, st); ok {
+					st.trace = append(st.trace, TraceItem{Prim: "store", Off: int(off), Bytes: []ByteItem{parseByteItem(info, rhs)}, Pos: as.Pos()})
+				} else {
+					tr.unsupported(as, "store into "+tr.trackBuf+" at an offset that is not constant on this path")
+				}
+			}
+		}
+		if tr.trackVar != "" {
+			if sel, ok := ast.Unparen(l).(*ast.SelectorExpr); ok && exprStr(sel.X) == tr.trackVar {
+				st.trace = append(st.trace, TraceItem{Prim: "field", Arg: sel.Sel.Name, Expr: rhs, Pos: as.Pos()})
+			}
+		}
+	}
+}
+
+// recordBufCall records binary.BigEndian.PutUintN(buf[k:], v) on the tracked buffer.
+func (tr *tracer) recordBufCall(fi *FuncInfo, c *ast.CallExpr, st *pathState) {
+	if tr.trackBuf == "" || st.done != "" {
+		return
+	}
+	info := fi.Pkg.TypesInfo
+	name := calleeName(info, c)
+	w, okBE := binaryPut[name]
+	_, okLE := binaryPutLE[name]
+	if !okBE && !okLE || len(c.Args) != 2 {
+		return
+	}
+	dst := ast.Unparen(c.Args[0])
+	off := int64(0)
+	base := dst
+	if sl, ok := dst.(*ast.SliceExpr); ok {
+		base = sl.X
+		if sl.Low != nil {
+			k, ok := tr.evalInt(info, sl.Low, st)
+			if !ok {
+				tr.unsupported(c, "encoding/binary store at an offset that is not constant on this path")
+				return
+			}
+			off = k
+		}
+	}
+	if strings.ReplaceAll(exprStr(base), " ", "") != tr.trackBuf {
+		return
+	}
+	if okLE {
+		st.trace = append(st.trace, TraceItem{Prim: "store-le", Off: int(off), Pos: c.Pos()})
+		return
+	}
+	v := stripConv(info, c.Args[1])
+	for i := 0; i < w; i++ {
+		st.trace = append(st.trace, TraceItem{Prim: "store", Off: int(off) + i, Bytes: []ByteItem{{Base: v, Shift: 8 * (w - 1 - i)}}, Pos: c.Pos()})
+	}
 }
